@@ -4,10 +4,10 @@
   Flag values come from Extracted/BurlTables.lean, the base64url tables from
   Extracted/KvModifiers.lean (both regenerated from the C source on every run).
 
-  `look` arguments: burl_append_encode_nde/psnde read str[i+1], str[i+2] without
-  checking `len`, i.e. up to two bytes *behind* the string that is appended (the
-  rest of the NUL-terminated buffer the string is a slice of).  The model takes
-  those bytes explicitly.
+  `look` arguments: the bytes *behind* the string that is appended (the rest of the
+  NUL-terminated buffer the string is a slice of).  burl_append_encode_nde/psnde check
+  `i+2 < len` before they look at str[i+1], str[i+2], so these bytes have no influence
+  (`burlAppend_look_irrelevant`); the correspondence keeps passing them to show that.
 -/
 import LtVerif.Model.Burl
 import LtVerif.Extracted.KvModifiers
@@ -32,10 +32,10 @@ where
     | _ :: rest, skip + 1 => go rest skip
     | b :: rest, 0 =>
       if b = pct then
-        match hex2 (rest ++ look.take 2) with
+        match hex2 rest with          -- `i+2 < len`: both hex digits lie inside the string
         | some (hv, lv) =>
           let x : UInt8 := (hv <<< 4) ||| lv
-          (if isUnreserved x then [x] else b :: (rest ++ look.take 2).take 2) ++ go rest 2
+          (if isUnreserved x then [x] else b :: rest.take 2) ++ go rest 2
         | none => pctEnc b ++ go rest 0
       else if isUnreserved b || (keepSlash && b = slash) then b :: go rest 0
       else pctEnc b ++ go rest 0
